@@ -678,7 +678,7 @@ Lemma Inv_set_nn : forall av im rn st n, Inv av im rn st -> Inv av im rn (set_nn
 Proof. intros av im rn st n H. exact H. Qed.
 
 Section TotalParser.
-Variable fixed fixed_aspan : bool.
+Variable fixed fixed_aspan fixed_pspan : bool.
 Variable kind : ykind.
 Variable src : str.
 Variable fuel : nat.
@@ -1259,7 +1259,7 @@ Definition pend_ok (pstart : nat) (pend : option nat) : Prop :=
   match pend with Some e => pstart <= e | None => True end.
 
 Section TotalRules.
-Variable fixed fixed_aspan : bool.
+Variable fixed fixed_aspan fixed_pspan : bool.
 Variable kind : ykind.
 Variable src : str.
 Variable fuel : nat.
@@ -1295,7 +1295,7 @@ Qed.
 Lemma rule_loop_good : forall f av im st rn i syms prec action pstart pend,
   Inv av im (Some rn) st -> vpos src i -> len - i < f -> pstart <= i -> pend_ok pstart pend -> PA action ->
   good (Inv av im (Some rn)) i false
-       (rule_loop fixed fixed_aspan src len fuel f st rn i syms prec action pstart pend).
+       (rule_loop fixed fixed_aspan fixed_pspan src len fuel f st rn i syms prec action pstart pend).
 Proof.
   induction f as [|f IH]; intros av im st rn i syms prec action pstart pend HI Hv Hf Hps Hpe Hact; [lia|].
   cbn [rule_loop]. destruct (Nat.ltb_spec i len) as [Hlt|Hge]; cbn [negb]; [|apply sgoodP_fail; exact HI].
@@ -1305,7 +1305,7 @@ Proof.
             Inv av im (Some rn) st' -> vpos src i' -> i < i' -> pend_ok pstart pend' -> PA action' ->
             good (Inv av im (Some rn)) i false
                  (sbind (ws fixed src len fuel st' i' true)
-                        (fun st i => rule_loop fixed fixed_aspan src len fuel f st rn i syms' prec' action' pstart pend'))).
+                        (fun st i => rule_loop fixed fixed_aspan fixed_pspan src len fuel f st rn i syms' prec' action' pstart pend'))).
   { intros st' i' syms' prec' action' pend' HI' Hv' Hlt' Hpe' Hact'.
     bind_ws HI' Hv'. intros st2 i2 HI2 [Hv2 Hi2]. pose proof (vpos_le _ _ Hv2).
     eapply sgoodP_weaken; [intros ? Hst; exact Hst | |
@@ -1363,7 +1363,8 @@ Proof.
     { destruct (is_some t1); [apply sgoodP_ret; [exact HI10 | exact I]|].
       eapply sgoodP_weaken; [intros ? Hst; exact Hst | intros; exact I | apply look_good2; [exact HI10 | exact Hv8]]. }
     intros st11 t2 HI11 _. destruct (is_some t2); cbn [negb]; [|apply sgoodP_fail; exact HI11].
-    apply Hnext; [exact HI11 | exact Hv8 | simpl in *; lia | simpl; lia | exact Hasp]. }
+    apply Hnext; [exact HI11 | exact Hv8 | simpl in *; lia | | exact Hasp].
+    unfold brace_pend, pend_ok in *. destruct fixed_pspan; [destruct pend|]; simpl in *; lia. }
   (* %empty *)
   blook HI6 Hv. intros st7 la7 HI7 [Hla7 _]. destruct la7 as [j7|].
   { destruct Hla7 as [Hj7 Hvj7]. change (byte_len kw_empty) with 6 in Hj7.
@@ -1441,7 +1442,7 @@ Proof.
 Qed.
 
 Lemma parse_rule_good : forall av im st i, Inv av im None st -> vpos src i ->
-  good (Inv av im None) i true (parse_rule fixed fixed_aspan kind src len fuel st i).
+  good (Inv av im None) i true (parse_rule fixed fixed_aspan fixed_pspan kind src len fuel st i).
 Proof.
   intros av im st i HI Hv. unfold parse_rule.
   eapply sgoodP_bind; [apply sgoodP_lift; [exact HI | apply parse_name_total; exact Hv]|].
@@ -1489,7 +1490,7 @@ Proof.
 Qed.
 
 Lemma rules_loop_good : forall f av im st i, Inv av im None st -> vpos src i -> len - i < f ->
-  good (Inv av im None) i false (rules_loop fixed fixed_aspan kind src len fuel f st i).
+  good (Inv av im None) i false (rules_loop fixed fixed_aspan fixed_pspan kind src len fuel f st i).
 Proof.
   induction f as [|f IH]; intros av im st i HI Hv Hf; [lia|].
   cbn [rules_loop]. destruct (Nat.ltb_spec i len) as [Hlt|Hge]; cbn [negb].
@@ -1506,7 +1507,7 @@ Qed.
 (* parse_rules is entered at "%%" (parse_declarations returns Ok only there) *)
 Lemma parse_rules_good : forall av im st i k, Inv av im None st -> vpos src i ->
   lookahead_is src kw_pp i = Done (Some k) ->
-  good (Inv av im None) i false (parse_rules fixed fixed_aspan kind src len fuel st i).
+  good (Inv av im None) i false (parse_rules fixed fixed_aspan fixed_pspan kind src len fuel st i).
 Proof.
   intros av im st i k HI Hv Hla. unfold parse_rules, look. rewrite Hla. cbn [lifto sbind].
   destruct (vpos_look src kw_pp i Hv) as [o [Ho Po]]. rewrite Hla in Ho. injection Ho as <-.
@@ -1536,7 +1537,7 @@ Proof.
 Qed.
 
 Lemma parse_total : exists st es,
-  parse fixed fixed_aspan kind src len fuel = Done (st, es) /\ Inv0 st.
+  parse fixed fixed_aspan fixed_pspan kind src len fuel = Done (st, es) /\ Inv0 st.
 Proof.
   unfold parse.
   pose proof (parse_declarations_good fixed src fuel Hfuel kind false false None st0 0 Inv0_st0 (vpos_0 src)) as H1.
@@ -1545,7 +1546,7 @@ Proof.
   2:{ cbn [obind]. eexists. eexists. split; [reflexivity | exact H1]. }
   destruct H1 as [HI1 [[Hv1 _] [k Hk]]]. cbn [obind].
   pose proof (parse_rules_good false false st1 i1 k HI1 Hv1 Hk) as H2.
-  destruct (parse_rules fixed fixed_aspan kind src len fuel st1 i1) as [[st2 [i2|e2]]| |]; simpl in H2; try contradiction.
+  destruct (parse_rules fixed fixed_aspan fixed_pspan kind src len fuel st1 i1) as [[st2 [i2|e2]]| |]; simpl in H2; try contradiction.
   2:{ cbn [obind]. eexists. eexists. split; [reflexivity | exact H2]. }
   destruct H2 as [HI2 [Hv2 _]]. cbn [obind].
   pose proof (parse_programs_good false false st2 i2 HI2 Hv2) as H3.
@@ -1590,10 +1591,10 @@ Qed.
 
 Lemma yacc_parse_total : yacc_parse_total_stmt.
 Proof.
-  intros fixed fixed_aspan kind src. unfold run_case, yacc_new_gen.
+  intros fixed fixed_aspan fixed_pspan kind src. unfold run_case, yacc_new_gen.
   destruct (header_present src); [eexists; reflexivity|].
   assert (Hfuel : byte_len src < fuel_for src) by (unfold fuel_for; lia).
-  destruct (parse_total (fun _ => True) fixed fixed_aspan kind src (fuel_for src) Hfuel I
+  destruct (parse_total (fun _ => True) fixed fixed_aspan fixed_pspan kind src (fuel_for src) Hfuel I
                         (fun _ _ _ _ _ _ => I)) as [st [es [Hp HI]]].
   rewrite Hp. cbn [obind].
   destruct HI as [_ [Hpidx _]].
@@ -1656,10 +1657,10 @@ Qed.
 
 Lemma action_span_fixed : action_span_fixed_stmt.
 Proof.
-  intros fixed kind src a errs w Hrun. unfold run_case, yacc_new_gen in Hrun.
+  intros fixed fixed_pspan kind src a errs w Hrun. unfold run_case, yacc_new_gen in Hrun.
   destruct (header_present src); [discriminate Hrun|].
   assert (Hfuel : byte_len src < fuel_for src) by (unfold fuel_for; lia).
-  destruct (parse_total (action_ok src) fixed true kind src (fuel_for src) Hfuel I
+  destruct (parse_total (action_ok src) fixed true fixed_pspan kind src (fuel_for src) Hfuel I
               (action_span_fixed_selects src)) as [st [es [Hp HI]]].
   rewrite Hp in Hrun. cbn [obind] in Hrun.
   destruct (complete_and_validate (ast st)) as [v| |]; cbn [obind] in Hrun; try discriminate Hrun.
@@ -1670,15 +1671,15 @@ Qed.
 (* the code as it is, on "%%\nA:{ x};": the action "x" gets the span (6,7), which selects " " *)
 Definition refuted_src : str := [37; 37; 10; 65; 58; 123; 32; 120; 125; 59]%N.
 
-Lemma action_span_refuted_run : exists a e w p,
-  run_case false false KOriginal refuted_src = Done (TResult a e w) /\
+Lemma action_span_refuted_run : forall fp, exists a e w p,
+  run_case false false fp KOriginal refuted_src = Done (TResult a e w) /\
   a_prods a = [p] /\ p_action p = Some ([120%N], (6, 7)).
-Proof. vm_compute. do 4 eexists. split; [reflexivity | split; reflexivity]. Qed.
+Proof. intros [|]; vm_compute; do 4 eexists; (split; [reflexivity | split; reflexivity]). Qed.
 
 Lemma action_span_refuted : action_span_refuted_stmt.
 Proof.
-  exists false, KOriginal, refuted_src.
-  destruct action_span_refuted_run as [a [e [w [p [H1 [H2 H3]]]]]].
+  exists false, KOriginal, refuted_src. intros fp.
+  destruct (action_span_refuted_run fp) as [a [e [w [p [H1 [H2 H3]]]]]].
   rewrite H1, H2. intros H. apply Forall_inv in H. rewrite H3 in H.
   vm_compute in H. discriminate H.
 Qed.
